@@ -366,7 +366,7 @@ def in_place_models(ctx, tmp):
 
 
 def run(ctx):
-    ctx.check_proofs(["MPilot.Props.C17", "MPilot.Props.C17Table"])
+    ctx.check_proofs(["MPilot.Props.C17", "MPilot.Props.C17Table", "MPilot.Props.Findings"])
     model = common.Model()
     rng = ctx.rng
     tmp = common.tmpdir("mpv_c17_")
